@@ -736,7 +736,13 @@ def run(ctx):
 
     # ------------------------------------------------ flow rows: short vs long headers, * columns
     desc = flow_desc()
-    cx = flow_ctx_tables()
+    cx, refusal = c09_history.safe_flow_tables()
+    if refusal:
+        # the behavioural probe of the header tables refuses this tree (the driver reports the translator); the streams
+        # run on the tables read from the source
+        ctx.disagree("flow header tables: the behavioural probe refuses this tree", "FlowRowModel.header_name_to_field_name_with_context",
+                     "tables as probed by the translator", refusal[:300])
+        stats["flow_tables_from_source"] = refusal[:300]
     parser = RowParser(FlowRowModel, CellParser())
     n_flow = (8000 if thorough else 700) * ctx.scale
     fstats = {"pairs": 0, "no_two_encodings": 0, "padded_type_cell": 0, "padded_type_cell_with_short_main_header": 0}
